@@ -324,6 +324,12 @@ def lossless_case(ctx, c, rng, idx):
         feats = []
         ctx.violation('lossless', case, {'diff': str(d)[:400], 'serialised': decoded[:300]}, features=feats)
         return
+    # the projection decodes escapes itself (cssutils keeps some undecoded by design), which would hide an escape the parser no longer
+    # resolves: compare the raw DOM strings, too (the generated texts contain no backslash, so every one in the DOM would be a left-over)
+    raw_a, raw_b = raw_dom(sheet), raw_dom(back)
+    if raw_a != raw_b:
+        ctx.violation('lossless', case, {'what': 'raw DOM strings differ after decode+reparse', 'before': str(raw_a)[:300], 'after': str(raw_b)[:300], 'serialised': decoded[:300]})
+        return
     d2 = projection.diff(strip(want), strip(got2))
     if d2:
         ctx.violation('lossless', case, {'what': 'decoded text reparses differently', 'diff': str(d2)[:400], 'serialised': decoded[:300]})
@@ -345,6 +351,16 @@ def lossless_case(ctx, c, rng, idx):
                 ctx.violation('lossless', case, {'what': 'comment dropped', 'got': cm})
                 return
     ctx.seen(['L', target, block, pos])
+
+
+def raw_dom(sheet):
+    out = []
+    for r in sheet.cssRules:
+        if type(r).__name__ == 'CSSStyleRule':
+            out.append(('sel', r.selectorText))
+            for p in r.style.getProperties(all=True):
+                out.append((p.name, [getattr(v, 'value', None) if getattr(v, 'type', None) in ('STRING', 'IDENT', 'URI') else None for v in p.propertyValue]))
+    return out
 
 
 def run_worker(ctx):
